@@ -107,7 +107,7 @@ inductive Login | ok (initSusp : Bool) (initFails : Bool) | denied | unknownUser
 deriving Repr
 
 def loginScript : Login → List Op
-  | .ok susp fails => [.emit .ok, .drain, .call .init susp fails]
+  | .ok _ _ => [.emit .ok, .drain]
   | .denied => [.emit (.err .accessDenied), .drain, .raise_ .authFailed]
   | .unknownUser => [.emit (.err .unknownUser), .drain, .raise_ .authFailed]
   | .malformed => [.raise_ .generic]
